@@ -310,7 +310,20 @@ def rule_decoder_state(ctx):
     C07.rule_R1(ctx, "C07.R1")
 
 
+def rule_direction_flags(ctx):
+    from . import _http_lists as HL
+    HL.direction_flags(ctx, ctx.program, "R4", "http2_process")
+
+
+def rule_first_separator(ctx):
+    from ..engine import report as R
+    from . import C05
+    C05.rule_R8(R.Retag(ctx, "C05."))
+
+
 def run(ctx):
+    rule_first_separator(ctx)
+    rule_direction_flags(ctx)
     rule_decoder_state(ctx)
     rule_R1_R2(ctx, "Http2Parser", ("build_stream", "parse_headers_payload"), "http2_parser")
     rule_R2(ctx)
